@@ -93,7 +93,7 @@ pub fn prop() -> Prop {
         gen,
         check,
         panic_is_violation: false,
-        budget: (200_000, 6_000_000),
+        budget: (1200000, 36000000),
         extra: None,
         required: &["lf_to_lf", "lf_to_crlf", "crlf_to_lf", "crlf_to_crlf", "trailing_ending", "width_independence_checked"],
         known: None,
